@@ -709,3 +709,205 @@ func inlineObjectKeepsItsPacket(w *World, r *Report, prop string) {
 	}
 	r.note("%s: assignments examined: %d", rule, n)
 }
+
+// */size-sum-honours-repeat: a byte count added up over the members of a packet asks each member whether it repeats.
+//
+// A generator that computes a size from the model (a "fixed size" shortcut that writes a constant into the length field, a minimum
+// size the decoder refuses below) walks Packet.Fields and adds the width of each member: the Size of its scalar type, the Length of
+// its fixed string, the size of its packet. A member declared `repeat` occupies a count prefix and n elements - any sum that does
+// not look at IsRepeat counts it as exactly one element, and the number emitted into the codec is wrong for every message whose
+// list does not hold exactly one element. Decided: a loop over a list of *model.Field in generator code that carries an integer
+// to which a width taken from the model is added reads IsRepeat of the loop's element inside the loop.
+func sizeSumHonoursRepeat(w *World, r *Report, prop string) {
+	rule := prop + "/size-sum-honours-repeat"
+	n := 0
+	for _, fn := range w.srcFuncs {
+		if !w.isSubjectFunc(fn) || fn.Blocks == nil || !isGeneratorFunc(fn) {
+			continue
+		}
+		for _, hb := range fn.Blocks {
+			if hb.Comment != "rangeindex.loop" {
+				continue
+			}
+			loop := naturalLoop(hb)
+			if len(loop) < 2 {
+				continue
+			}
+			// the element: a load of an IndexAddr of a []*model.Field inside the loop
+			var elem ssa.Value
+			for b := range loop {
+				for _, ins := range b.Instrs {
+					if ld, ok := ins.(*ssa.UnOp); ok && ld.Op == token.MUL {
+						if ia, ok := ld.X.(*ssa.IndexAddr); ok {
+							if sl, ok := ia.X.Type().Underlying().(*types.Slice); ok && isFieldPtr(sl.Elem()) {
+								elem = ld
+							}
+						}
+					}
+				}
+			}
+			if elem == nil {
+				continue
+			}
+			// an integer carried around the loop with a model width added to it
+			var sum *ssa.Phi
+			for _, ins := range hb.Instrs {
+				ph, ok := ins.(*ssa.Phi)
+				if !ok || !isInt(ph.Type()) {
+					continue
+				}
+				for _, e := range ph.Edges {
+					if addsModelWidth(w, fn, e, ph, loop, 0, map[ssa.Value]bool{}) {
+						sum = ph
+					}
+				}
+			}
+			if sum == nil {
+				continue
+			}
+			n++
+			// the blocks that test IsRepeat of the element
+			var tests []*ssa.BasicBlock
+			for b := range loop {
+				cond := branchCond(b)
+				if cond == nil {
+					continue
+				}
+				c := cond
+				for {
+					if u, ok := c.(*ssa.UnOp); ok && u.Op == token.NOT {
+						c = u.X
+						continue
+					}
+					break
+				}
+				if ld, ok := c.(*ssa.UnOp); ok && ld.Op == token.MUL {
+					if fa, ok := ld.X.(*ssa.FieldAddr); ok {
+						if tn, f, _, _ := fieldOf(fa); tn == "Field" && f == "IsRepeat" && stripIdentity(fa.X) == stripIdentity(elem) {
+							tests = append(tests, b)
+						}
+					}
+				}
+			}
+			// every addition of a width to the carried number lies behind such a test
+			var blind ssa.Instruction
+			for b := range loop {
+				for _, ins := range b.Instrs {
+					bo, ok := ins.(*ssa.BinOp)
+					if !ok || bo.Op != token.ADD || !isInt(bo.Type()) {
+						continue
+					}
+					adds := false
+					for _, pair := range [][2]ssa.Value{{bo.X, bo.Y}, {bo.Y, bo.X}} {
+						if reachesPhi(pair[0], sum, 0) && isModelWidth(fn, pair[1], 0) {
+							adds = true
+						}
+					}
+					if !adds {
+						continue
+					}
+					behind := false
+					for _, t := range tests {
+						if t != b && t.Dominates(b) {
+							behind = true
+						}
+					}
+					if !behind && blind == nil {
+						blind = ins
+					}
+				}
+			}
+			key := fmt.Sprintf("%s: the size added up over the members counts repeated members as lists", fnKey(fn))
+			if blind == nil {
+				r.pass(rule, key, w.instrPos(sum), "")
+			} else {
+				r.fail(rule, key, w.instrPos(blind), "a number of bytes is added up over the members of a packet (scalar sizes, fixed-string lengths, nested sizes) and a width is added without asking the member whether it is declared `repeat`: a repeated member is counted as one element without its count prefix, and the number the generated code is given is wrong whenever the list does not hold exactly one element")
+			}
+		}
+	}
+	r.note("%s: size sums over members examined: %d", rule, n)
+}
+
+// addsModelWidth: v is (a chain of additions / phis inside the loop over) carried + x where x comes from the model's widths: a
+// FixedStringFieldAttribute.Length, the Size member of a type-table row, or the integer result of a call of the same function.
+func addsModelWidth(w *World, fn *ssa.Function, v ssa.Value, carried *ssa.Phi, loop map[*ssa.BasicBlock]bool, depth int, seen map[ssa.Value]bool) bool {
+	if depth > 8 || seen[v] {
+		return false
+	}
+	seen[v] = true
+	switch x := v.(type) {
+	case *ssa.Phi:
+		if x == carried || !loop[x.Block()] {
+			return false
+		}
+		for _, e := range x.Edges {
+			if addsModelWidth(w, fn, e, carried, loop, depth+1, seen) {
+				return true
+			}
+		}
+	case *ssa.BinOp:
+		if x.Op != token.ADD || !loop[x.Block()] {
+			return false
+		}
+		for _, pair := range [][2]ssa.Value{{x.X, x.Y}, {x.Y, x.X}} {
+			acc, add := pair[0], pair[1]
+			if acc == ssa.Value(carried) || addsModelWidth(w, fn, acc, carried, loop, depth+1, seen) || reachesPhi(acc, carried, 0) {
+				if isModelWidth(fn, add, 0) {
+					return true
+				}
+			}
+		}
+	}
+	return false
+}
+
+func reachesPhi(v ssa.Value, target *ssa.Phi, depth int) bool {
+	if depth > 6 {
+		return false
+	}
+	switch x := v.(type) {
+	case *ssa.Phi:
+		if x == target {
+			return true
+		}
+		for _, e := range x.Edges {
+			if e != ssa.Value(x) && reachesPhi(e, target, depth+1) {
+				return true
+			}
+		}
+	case *ssa.BinOp:
+		return reachesPhi(x.X, target, depth+1) || reachesPhi(x.Y, target, depth+1)
+	}
+	return false
+}
+
+func isModelWidth(fn *ssa.Function, v ssa.Value, depth int) bool {
+	if depth > 4 {
+		return false
+	}
+	switch x := stripIdentity(v).(type) {
+	case *ssa.UnOp:
+		if fa, ok := x.X.(*ssa.FieldAddr); ok && x.Op == token.MUL {
+			tn, f, _, _ := fieldOf(fa)
+			return (tn == "FixedStringFieldAttribute" && f == "Length") || f == "Size"
+		}
+	case *ssa.Field:
+		_, f, _, _ := fieldOf(x)
+		return f == "Size" || f == "Length"
+	case *ssa.Extract:
+		if c, ok := x.Tuple.(*ssa.Call); ok {
+			return c.Call.StaticCallee() == fn || (c.Call.StaticCallee() != nil && isGeneratorFunc(c.Call.StaticCallee()) && isInt(x.Type()))
+		}
+	case *ssa.Call:
+		return x.Call.StaticCallee() == fn
+	case *ssa.BinOp:
+		return isModelWidth(fn, x.X, depth+1) || isModelWidth(fn, x.Y, depth+1)
+	case *ssa.Phi:
+		for _, e := range x.Edges {
+			if isModelWidth(fn, e, depth+1) {
+				return true
+			}
+		}
+	}
+	return false
+}
